@@ -210,7 +210,7 @@ func queryPoints(r *rand.Rand, starts, ends []int) []int {
 }
 
 func c16Random(c *Ctx) {
-	n := c.N(1500, 40000)
+	n := c.N(3000, 200000)
 	for i := 0; i < n; i++ {
 		c.Case(int64(i), func(k *K) {
 			r := k.Rand()
@@ -280,7 +280,7 @@ func c16Mismatch(c *Ctx) {
 
 // c16Concurrent shares one index among 16 goroutines (run under -race).
 func c16Concurrent(c *Ctx) {
-	total := c.N(100000, 2000000)
+	total := c.N(100000, 6000000)
 	const G = 16
 	rounds := 4
 	per := total / G / rounds
